@@ -283,6 +283,8 @@ def model_behaviours(workdir, ops, depth, num=None, seed=0, tag='env'):
                            'cur': cur, 'cached_is_cur': cached != -1 and cached == cur,
                            'miss': co > prev['calls']['obs'] and op not in ('FuncObs',), 'had_state': prev['cur'] != -1})
         behs.append(steps_)
+    if num is not None:
+        behs = behs[:num]   # TLC's simulator overshoots the requested number of traces
     return behs, res
 
 
